@@ -334,6 +334,8 @@ func c17DictStmts() []c17Stmt {
 	return []c17Stmt{
 		{"FW", "text FW {\n\tformat(\"" + strings.Join(words, " ") + "\")\n}\n", regexp.MustCompile(`^FW$`), true},
 		{"FG", "text FG {\n\tformat(\"*** @@@ ### ~~~ ___ *** @@@ ### ~~~ ___ *** @@@ aa ### a ~~~\")\n}\n", regexp.MustCompile(`^FG$`), true},
+		// a format() with an explicitly empty font id (accepted: no font, every glyph 0 wide) next to ones that select a font
+		{"FE", "text FE {\n\tformat(\"aa ee aa ee aa ee aa ee aa ee aa ee\", \"\")\n}\n", regexp.MustCompile(`^FE$`), true},
 	}
 }
 
@@ -344,7 +346,7 @@ func c17Context(r *harness.Run, tier string) {
 		c17CtxFont = f.Name()
 		defer os.Remove(f.Name())
 	}
-	if len(c17Stmts) > 0 && c17Stmts[len(c17Stmts)-1].name != "FG" {
+	if len(c17Stmts) > 0 && c17Stmts[len(c17Stmts)-1].name != "FE" {
 		c17Stmts = append(c17Stmts, c17DictStmts()...)
 	}
 	maxOthers := 2
